@@ -112,7 +112,9 @@ namespace bloch::compiler {
         for (const auto& p : parts) relative /= p;
         relative += ".bloch";
 
-        bool preferSearchPaths = !parts.empty() && parts.front() == "bloch";
+        // parts = package + symbol: only a module *inside* package bloch... is a bloch.* import;
+        // 'import bloch;' names the module bloch.bloch of the default package.
+        bool preferSearchPaths = parts.size() > 1 && parts.front() == "bloch";
 
         // Search order:
         // - default: importing file dir, configured search paths, current working dir.
